@@ -122,18 +122,28 @@ static bool run_target(vf::Ctx& c, ZSTD_CCtx* cctx, const Target& T, const Pertu
 }
 
 // things done to a context before T; each is followed by a session reset
-static void history(vf::Ctx& c, ZSTD_CCtx* cctx, unsigned* nframes) {
+static void history(vf::Ctx& c, ZSTD_CCtx* cctx, unsigned* nframes, const gen::ParamSet* Tps) {
     vf::Tape& t = c.t;
     unsigned n = (unsigned)t.range(1, 5);
     for (unsigned i = 0; i < n; i++) {
         ZSTD_CCtx_reset(cctx, ZSTD_reset_session_and_parameters);
-        gen::ParamSet ps = gen::gen_params(t, false, 5);
+        // half of the history runs with T's own parameter vector (same tables, same MT/LDM machinery: the likeliest
+        // place for state to survive), possibly with one more override; the rest with unrelated parameters
+        gen::ParamSet ps;
+        if (Tps && t.chance(55)) { ps = *Tps; if (t.flip()) { gen::ParamSet extra = gen::gen_params(t, false, 1); for (auto& e : extra.v) ps.v.push_back(e); } }
+        else ps = gen::gen_params(t, false, 5);
         if (gen::estimate_mem(ps) > (400ull << 20)) continue;
         gen::apply_params(cctx, ps);
         int lvl = ps.get(ZSTD_c_compressionLevel, 3), strat = ps.get(ZSTD_c_strategy, 0);
         std::vector<uint8_t> y = gen::gen_content(t, (lvl >= 16 || strat >= 7) ? (64u << 10) : (600u << 10));
         std::vector<uint8_t> o(ZSTD_compressBound(y.size()) + 64);
-        switch (t.weighted({4, 2, 1, 1, 1})) {
+        switch (t.weighted({3, 2, 1, 1, 1, 3})) {
+            case 5: {  // a complete streamed frame of unknown size (this is what takes the MT path for any size)
+                ZSTD_inBuffer in = {y.data(), y.size(), 0}; ZSTD_outBuffer ob = {o.data(), o.size(), 0};
+                size_t r = ZSTD_compressStream2(cctx, &ob, &in, ZSTD_e_continue);
+                for (unsigned g = 0; g < 100000 && !ZSTD_isError(r); g++) { r = ZSTD_compressStream2(cctx, &ob, &in, ZSTD_e_end); if (r == 0) break; }
+                c.note("H:streamed(%zu) ", y.size()); break;
+            }
             case 0: { size_t r = ZSTD_compress2(cctx, o.data(), o.size(), y.data(), y.size()); (void)r; c.note("H:frame(%zu) ", y.size()); break; }
             case 1: {  // aborted mid-stream
                 ZSTD_inBuffer in = {y.data(), y.size() / 2 + 1 > y.size() ? y.size() : y.size() / 2 + 1, 0}; ZSTD_outBuffer ob = {o.data(), (size_t)t.range(0, 300), 0};
@@ -163,6 +173,12 @@ void vf_case(vf::Ctx& c) {
     { std::vector<gen::PV> kk; for (auto& x : T.ps.v) if (x.p != ZSTD_c_format || true) kk.push_back(x); T.ps.v = kk; }
     if (gen::estimate_mem(T.ps) > (500ull << 20)) c.discard("memcap");
     bool mt = t.chance(25);
+    if (t.chance(mt ? 40 : 10) && !T.ps.has(ZSTD_c_enableLongDistanceMatching)) {
+        T.ps.v.push_back({ZSTD_c_enableLongDistanceMatching, 1, "ldm"});
+        if (t.flip()) T.ps.v.push_back({ZSTD_c_ldmHashLog, (int)t.range(6, 14), "ldmHashLog"});
+        if (t.flip()) T.ps.v.push_back({ZSTD_c_ldmBucketSizeLog, (int)t.range(1, 8), "ldmBucketSizeLog"});
+        if (t.flip()) T.ps.v.push_back({ZSTD_c_ldmMinMatch, (int)t.range(4, 128), "ldmMinMatch"});
+    }
     if (mt) { T.ps.v.push_back({ZSTD_c_nbWorkers, (int)t.range(1, 4), "nbWorkers"}); if (t.flip()) T.ps.v.push_back({ZSTD_c_jobSize, 1 << 20, "jobSize"}); if (t.flip()) T.ps.v.push_back({ZSTD_c_overlapLog, (int)t.range(1, 9), "overlapLog"}); }
     int lvl = T.ps.get(ZSTD_c_compressionLevel, 3), strat = T.ps.get(ZSTD_c_strategy, 0);
     size_t maxsz = (lvl >= 16 || strat >= 7) ? (200u << 10) : (mt ? (4u << 20) : (g_thorough ? (2u << 20) : (700u << 10)));
@@ -214,7 +230,7 @@ void vf_case(vf::Ctx& c) {
     if (getenv("VF_NO_GARBAGE") && kind == 2) kind = 3;   // triage switches (never set by the checks)
     if (!b) b = (kind == 2) ? ZSTD_createCCtx_advanced(cm) : ZSTD_createCCtx();
     struct G2 { ZSTD_CCtx* c; bool st; vf::Buf* ws; ~G2() { if (!st) ZSTD_freeCCtx(c); if (ws) delete ws; } } g2{b, kind == 1 && ws, ws};
-    if (kind == 0 || (kind != 3 && t.chance(50))) history(c, b, &nh);
+    if (kind == 0 || (kind != 3 && t.chance(50))) history(c, b, &nh, &T.ps);
     P.srcOff = t.chance(50) ? (size_t)t.range(0, 63) : 0;
     P.dstOff = t.chance(50) ? (size_t)t.range(0, 63) : 0;
     P.capMode = (T.api == 0 || T.api == 3) ? (size_t)t.weighted({2, 2, 3}) : 0;
